@@ -258,9 +258,79 @@ def r5_scope_provenance(ctx):
     ctx.floor('C04.R5', 'component records with a scope built in components::db', n, 10)
 
 
+SHAPE_CALLS = {'next', 'is_some', 'is_none', 'is_empty', 'len', 'iter', 'iter_mut', 'into_iter', 'as_mut', 'as_ref', 'deref', 'deref_mut', 'enumerate'}
+
+
+def r6_every_import_resolved(ctx):
+    from ..govern import controlling_switches
+    ctx.rule('C04.R6', 'P12 decision audit: an import is registered IN a blueprint, and what it brings in lands in that blueprint\'s scope. In '
+             '`user_components::imports::resolve_imports` (its closures and private helpers included) every resolved import is recorded: '
+             'whether the push of a `ResolvedImport` happens depends only on the shape of the input (the loops over the imports and their '
+             'sources, which `Sources` variant, whether a lookup failed) — never on a boolean computed from other state (a "seen" set, a '
+             'comparison with an earlier import). Two sibling blueprints importing the same module are two imports; dropping the second '
+             'leaves its scope empty and the scope walk silently answers with the ancestor\'s constructor. The scope recorded in each '
+             'ResolvedImport is the one of the raw import.')
+    root = PX + 'analyses::user_components::imports::resolve_imports'
+    bodies = [b for b in ctx.fb.bodies('pavexc') if not b.is_promoted and (b.nroot == root or b.nid == root)]
+    if not ctx.need('C04.R6', 'user_components::imports::resolve_imports', bodies):
+        return
+    # private helpers of the same file that are handed the result vector
+    fam = list(bodies)
+    for b in ctx.fb.bodies('pavexc'):
+        if b.is_promoted or b in fam or b.file != bodies[0].file:
+            continue
+        if any('ResolvedImport' in ty and 'Vec<' in ty for ty in b.locals[1:1 + b.raw['argc']]):
+            fam.append(b)
+    n = 0
+    for b in fam:
+        defs = Defs(b)
+        for bb, t in b.calls():
+            c = callee(t) or ''
+            if c.split('::')[-1] not in ('push', 'extend', 'insert', 'push_back') or not any('ResolvedImport' in (a or '') for a in t.get('aty', [])):
+                continue
+            n += 1
+            bad = []
+            for sb, st in controlling_switches(b, bb):
+                if 'enum' in st:
+                    continue
+                pl = op_place(st['d'])
+                sl, _ = backward_slice(b, pl['l'], defs) if pl is not None else ([], set())
+                cs = {x.split('::')[-1] for x, _, _ in slice_calls(sl)}
+                if cs and not (cs - SHAPE_CALLS):
+                    continue
+                bad.append('%s at %s' % (sorted(cs) or 'a flag', b.loc(sb)))
+            ctx.ob('C04.R6', 'import-always-recorded|%s|#%d' % ('::'.join(b.nid.split('::')[-2:]), n), not bad, b.loc(bb, t),
+                   'the push of a ResolvedImport is governed by shape tests only%s' % ('' if not bad else ' — NO: it also depends on ' + '; '.join(bad)))
+    # scope provenance
+    n_agg = 0
+    for b in fam:
+        defs = Defs(b)
+        for bb, j, st in b.all_assigns():
+            rv = st['rv']
+            if rv['k'] == 'agg' and rv.get('ak') == 'adt' and strip_generics(rv['adt']).endswith('imports::ResolvedImport') and 'scope_id' in rv.get('fields', []):
+                n_agg += 1
+                o = rv['ops'][rv['fields'].index('scope_id')]
+                pl = op_place(o)
+                ok = False
+                if pl is not None:
+                    if 'f:scope_id' in pl.get('p', []):
+                        ok = True
+                    else:
+                        sl, _ = backward_slice(b, pl['l'], defs, through_calls=False)
+                        for _, _, node in sl:
+                            for q in ([node['rv'].get('pl')] if 'rv' in node and node['rv'].get('pl') else []) + \
+                                     ([op_place(node['rv']['op'])] if 'rv' in node and node['rv']['k'] in ('use', 'cast') and op_place(node['rv'].get('op')) else []):
+                                if q and 'f:scope_id' in q.get('p', []):
+                                    ok = True
+                ctx.ob('C04.R6', 'import-scope|%s|#%d' % (b.nid.split('::')[-1], n_agg), ok, b.loc(bb, st), 'ResolvedImport.scope_id is read from the `scope_id` field of the raw import: %s' % ok)
+    ctx.floor('C04.R6', 'sites recording a resolved import', n, 1)
+    ctx.floor('C04.R6', 'ResolvedImport values built', n_agg, 1)
+
+
 def check(ctx):
     r1_lookup_direction(ctx)
     r2_scopes_and_overrides(ctx)
     r3_clone_guard(ctx)
     r4_setters(ctx)
     r5_scope_provenance(ctx)
+    r6_every_import_resolved(ctx)
